@@ -1,4 +1,5 @@
-import NbioVerif.Properties.C06
+import NbioVerif.Lemmas.C06Core
+import NbioVerif.Model.ScanChecked
 /-! probe: C08 retained-bytes bound on the Parse skeleton, generic in the machine -/
 namespace Scan
 variable {σ ε : Type}
@@ -19,11 +20,6 @@ theorem loop_cache_le (M : Machine σ ε) (buf : List UInt8) :
       | exact ih _ _ _ _ _ _ _ h
       | (simp at h; done)
       | (simp at h; obtain ⟨_, _, hc⟩ := h; subst hc; simp)
-
-/-- Parse with the engine's ReadLimit test in front (limit = 0: disabled); error 11 = ErrTooLong -/
-def parseL (M : Machine σ ε) (limit : Nat) (st : σ) (cache data : List UInt8) (acc : List ε) : Res σ ε :=
-  if cache ≠ [] ∧ limit > 0 ∧ cache.length + data.length > limit then ⟨acc, .inr 11⟩
-  else implParse M st cache data acc
 
 /-- C08 (bound): what Parse retains never exceeds the read limit, except that a first read into an
     empty cache may be retained whole: `|cache'| ≤ max limit |data|` whenever `|cache| ≤ limit`. -/
